@@ -11,7 +11,7 @@ from .. import gen, genheat
 from ..recipe import abbreviate, build, solve
 from ..runner import Finding, Outcome, derive_seed, run_given
 
-RULE = ("cases = (recipe, profile table for a generated subset of sinks / sources (mdot_kg_per_s) and ext grids (p_bar) over 1..8 "
+RULE = ("cases = (recipe, profile table for a generated subset of sinks / sources (mdot_kg_per_s) and ext grids (p_bar, in_service = supply outage) over 1..8 "
         "steps with some steps made infeasible on purpose (absurd load), list of time steps to run = generated subset in generated "
         "order, continue_on_divergence flag, pipeflow options incl. sequential mode on heating loops). The series is run with "
         "ConstControl + OutputWriter; every logged step is compared bit-exactly with pipeflow on a freshly built net carrying that "
@@ -43,9 +43,14 @@ def case_strategy(draw, tier):
             targets.append((e["table"], e["index"], "mdot_kg_per_s", e["mdot_kg_per_s"]))
         if e["table"] == "ext_grid" and e.get("p_bar") is not None and draw(st.integers(0, 3)) == 0:
             targets.append((e["table"], e["index"], "p_bar", e["p_bar"]))
+        elif e["table"] == "ext_grid" and draw(st.integers(0, 2)) == 0:
+            targets.append((e["table"], e["index"], "in_service", True))      # supply outage in some steps
     prof = {}
     for k, (t, i, col, base) in enumerate(targets):
         vals = []
+        if col == "in_service":
+            prof["c%d" % k] = [draw(st.integers(0, 2)) > 0 for _ in range(nsteps)]
+            continue
         for s in range(nsteps):
             fac = draw(st.sampled_from([0.0, 0.5, 1.0, 1.0, 1.3, 2.0] if col != "p_bar" else [0.9, 1.0, 1.1]))
             v = base * fac
@@ -73,8 +78,9 @@ def evaluate(case):
     for k, (t, i, col) in enumerate(case["targets"]):
         by_tv.setdefault((t, col), []).append((i, "c%d" % k))
     for (t, col), lst in by_tv.items():
-        control.ConstControl(net, element=t, variable=col, element_index=[i for i, _ in lst], data_source=DFData(prof),
-                             profile_name=[c for _, c in lst])
+        # one data source per controlled column: a row of a frame with mixed bool / float columns would be read as object dtype
+        control.ConstControl(net, element=t, variable=col, element_index=[i for i, _ in lst],
+                             data_source=DFData(prof[[c for _, c in lst]].copy()), profile_name=[c for _, c in lst])
     log = [(a, b) for a, b in LOG if a in net or a[4:] in net]
     log = [(a, b) for a, b in log if a[4:] in net and len(net[a[4:]])]
     ow = OutputWriter(net, time_steps=list(case["steps"]), output_path=None, log_variables=log)
@@ -144,6 +150,8 @@ def evaluate(case):
     labels = {"mode:" + opts["mode"], "cod" if cod else "stop_on_divergence", "n_steps:%d" % len(case["steps"])}
     if fail_pos:
         labels.add("has_failing_step")
+    if any(col == "in_service" for _, _, col in case["targets"]):
+        labels.add("supply_outage_profile")
     if out_of_order:
         labels.add("out_of_order")
     nontriv = len(case["steps"]) >= 3 and ((fail_pos and fail_pos[0] < len(case["steps"]) - 1) or out_of_order)
